@@ -23,6 +23,9 @@ var commands = map[string]func([]string){
 	"ip":        cmdIP,
 	"tld":       cmdTLD,
 	"rsa":       cmdRSA,
+	"order":     cmdOrder,
+	"sig":       cmdSig,
+	"pairs":     cmdPairs,
 }
 
 func main() {
